@@ -5,7 +5,9 @@ import CryoCat.Lemmas.C12_Op
 import CryoCat.Lemmas.C12_Tail
 import CryoCat.Lemmas.C12_Mono
 import CryoCat.Lemmas.C12_Ray
+import CryoCat.Lemmas.C12_Nyq
 import CryoCat.Lemmas.C12_DftComplex
+import CryoCat.Lemmas.C12_DftComplexSym
 import CryoCat.Lemmas.C12_DftGrid
 /-! C12 — property theorems: the Fourier filters are the documented radial low/high/band-pass gains.
 
@@ -33,7 +35,17 @@ Reading guide (statement clause → theorem):
   `band_gain_negative_unequal_widths` (known finding C12-K1), `band_gain_negative_inverted`
 * signature defaults and whole-body anchors → `defaults_documented`, `signatures_documented`, `flow_documented`, `bodies_documented`
 * the transform inside the model → `dft_is_transform`, `dft1_inversion`, `dft_is_transform_complex`,
-  `lowpass_grid`, `highpass_grid`, `bandpass_grid` (the driver's `filter` op executes these operators) -/
+  `lowpass_grid`, `highpass_grid`, `bandpass_grid` (the driver's `filter` op executes these operators)
+* the shift theorem and the Hermitian symmetry of that transform → `dft1_shift_theorem`, `dft1_hermitian_symmetry`,
+  `dft3_shift_theorem`, `dft3_hermitian_symmetry`, `filt_shift_dft`; over ℂ `dft_shift_theorem_complex`, `dft_hermitian_complex`,
+  `idft_real_part_complex`
+* every operator theorem with NO hypothesis on the transform left (ℂ, numpy's twiddles, `np.real`) → `filt_add_complex`,
+  `filt_smul_complex`, `filt_real_complex`, `filt_shift_complex`, `filt_spectrum_complex`, `filt_even_gain_complex`,
+  `filt_effective_gain_complex`, `filt_complement_complex`, `filt_difference_complex`, `highpass_complement_complex`,
+  `bandpass_difference_complex`; for the three filters `filters_shift_complex`, `hard_lowpass_spectrum_complex`,
+  `filter_effective_gain_complex`, `filters_effective_gain_complex`; the driver's rolled run `filter_grid_roll(_complex)`
+* "non-increasing": the effective gain along EVERY away step incl. Nyquist landings `soft_eff_gain_mono_step_full`; refuted readings
+  `soft_monotone_radial_false`, `soft_monotone_false_at_face`; what stays open `SoftMonotoneOpen` -/
 namespace CryoCat.C12
 open Gen.C12
 
@@ -634,6 +646,15 @@ theorem soft_gain_mono_step (ker : List (Int × K)) (hk : UnimodalKernel ker) (d
     lowGainFn (some ker) d r j' k' l' ≤ lowGainFn (some ker) d r j k l :=
   gain_step_xyz ker hk d hd r hr j k l j' k' l' hx hy hz
 
+/-- **the high-pass gain is non-DEcreasing** along the same steps (it is the complement of the low-pass gain) -/
+theorem soft_high_gain_mono_step (ker : List (Int × K)) (hk : UnimodalKernel ker) (d : Dims)
+    (hd : 0 < d.nx ∧ 0 < d.ny ∧ 0 < d.nz) (r : Int) (hr : 0 ≤ r) (j k l j' k' l' : Int)
+    (hx : AwayStep d.nx r j j') (hy : AwayStep d.ny r k k') (hz : AwayStep d.nz r l l') :
+    highGainFn (some ker) d r j k l ≤ highGainFn (some ker) d r j' k' l' := by
+  rw [high_gain_complement, high_gain_complement]
+  have := soft_gain_mono_step ker hk d hd r hr j k l j' k' l' hx hy hz
+  linarith
+
 /-- **the same for the EFFECTIVE gain** `(g(k) + g(−k))/2` — what `np.real` leaves of the filter and what the
 harness measures as `fft(out)/fft(in)`: non-increasing along every step whose moving indices do not land on the
 Nyquist bin of an even axis (`EffStep`; that bin has no mirror image). This is the statement the judge's clause
@@ -647,6 +668,28 @@ theorem soft_eff_gain_mono_step (ker : List (Int × K)) (hk : UnimodalKernel ker
     (effStep_mirror _ hd.1 _ _ _ hx) (effStep_mirror _ hd.2.1 _ _ _ hy) (effStep_mirror _ hd.2.2 _ _ _ hz)
   simp only [effGain]
   linarith
+
+/-- **… also onto the Nyquist bin of an even axis**: the effective gain does not rise along ANY step whose indices keep their
+frequency or move one bin away from frequency 0 on an axis with `monoAxisOk` (`AwayStep`), no exclusion left. The Nyquist bin
+`-n/2` is its own mirror image, so the mirrored step goes from mask voxel `n-1` to mask voxel `0`; with the ball off both faces the
+two blurred rows are equally long windows of the symmetric unimodal kernel weights, the second one offset further out
+(`Lemmas/C12_Nyq.row_wrap`). The harness's clause `soft-monotone` judges exactly these steps on the measured gain. -/
+theorem soft_eff_gain_mono_step_full (ker : List (Int × K)) (hk : UnimodalKernel ker) (d : Dims)
+    (hd : 0 < d.nx ∧ 0 < d.ny ∧ 0 < d.nz) (r : Int) (hr : 0 ≤ r) (j k l j' k' l' : Int)
+    (hx : AwayStep d.nx r j j') (hy : AwayStep d.ny r k k') (hz : AwayStep d.nz r l l') :
+    effGain d (lowGainFn (some ker) d r) j' k' l' ≤ effGain d (lowGainFn (some ker) d r) j k l :=
+  eff_gain_step_xyz ker hk d hd r hr j k l j' k' l' hx hy hz
+
+/-- the formerly open item, in the shape it was recorded: the x-index steps from frequency `-n/2+1` onto the Nyquist bin `-n/2` -/
+theorem soft_eff_gain_mono_nyquist_x (ker : List (Int × K)) (hk : UnimodalKernel ker) (d : Dims)
+    (hd : 0 < d.nx ∧ 0 < d.ny ∧ 0 < d.nz) (r : Int) (hr : 0 ≤ r) (j k l j' : Int)
+    (hok : monoAxisOk d.nx r = true) (hj' : freq d.nx j' = -centre d.nx) (hj : freq d.nx j = -centre d.nx + 1) :
+    effGain d (lowGainFn (some ker) d r) j' k l ≤ effGain d (lowGainFn (some ker) d r) j k l := by
+  have hc : 0 < centre d.nx := by
+    have := (monoAxisOk_iff d.nx r).1 hok
+    omega
+  exact soft_eff_gain_mono_step_full ker hk d hd r hr j k l j' k l
+    (Or.inr ⟨hok, Or.inr ⟨by omega, by omega⟩⟩) (Or.inl rfl) (Or.inl rfl)
 
 /-- the third clause of `SoftEdgeFull` — along all 26 axis/diagonal rays `m·s ↦ (m+1)·s`, `s ∈ {-1,0,1}³` — in the
 form that IS proved: for the effective gain, on every ray whose moving axes keep the ball off both faces of the
@@ -683,6 +726,55 @@ theorem soft_edge_full_false_below_reach :
   have h1 := h.1 0 0 0 0 (le_refl _) (by decide) (by decide)
   revert h1
   decide +kernel
+
+/-! ### "non-increasing in between": what is refuted and what stays open -/
+
+/-- "non-increasing in the integer frequency RADIUS" read literally — for ANY two bins, also in different directions -/
+def SoftMonotoneRadial {K : Type} [Field K] [LinearOrder K] [IsStrictOrderedRing K]
+    (ker : List (Int × K)) (d : Dims) (r : Int) : Prop :=
+  ∀ j k l j' k' l' : Int, freqRadius2 d j k l ≤ freqRadius2 d j' k' l' →
+    effGain d (lowGainFn (some ker) d r) j' k' l' ≤ effGain d (lowGainFn (some ker) d r) j k l
+
+/-- **the literal radial reading is FALSE** even where the ball stays off every face of the mask box: kernel
+`(1/4, 1/2, 1/4)`, box 12³, cutoff 3 (`monoAxisOk 12 3`): bin `(2,2,2)` of squared radius 12 has gain 19/64, bin
+`(3,1,1)` of squared radius 11 only 17/64 — a lattice ball blurred with a separable kernel is not isotropic. Hence
+"non-increasing" can only be a statement about bins ordered componentwise (`soft_eff_gain_mono_step`, the 26 rays). -/
+theorem soft_monotone_radial_false :
+    monoAxisOk 12 3 = true ∧ ¬ SoftMonotoneRadial ([(-1, 1/4), (0, 1/2), (1, 1/4)] : List (Int × Rat)) ⟨12, 12, 12⟩ 3 := by
+  refine ⟨by decide, fun h => ?_⟩
+  have h1 := h 3 1 1 2 2 2 (by decide)
+  revert h1
+  decide +kernel
+
+/-- the axis-parallel step away from frequency 0 WITHOUT the face hypothesis of `soft_gain_mono_axis_x` -/
+def SoftMonotoneAnyFace {K : Type} [Field K] [LinearOrder K] [IsStrictOrderedRing K]
+    (ker : List (Int × K)) (d : Dims) (r : Int) : Prop :=
+  ∀ j k l j' : Int, 0 ≤ freq d.nx j → freq d.nx j' = freq d.nx j + 1 →
+    lowGainFn (some ker) d r j' k l ≤ lowGainFn (some ker) d r j k l
+
+/-- **the face hypothesis (`monoAxisOk`) is necessary**: where the ball touches the upper face of the mask box,
+`mode='nearest'` continues the mask with ones and the gain RISES away from frequency 0 — unimodal kernel
+`(1/8, 1/4, 1/4, 1/4, 1/8)`, box 4³, cutoff 1: gain 17/128 at the DC bin, 18/128 at bin `(1,0,0)`. So on such axes
+"non-increasing" is not a theorem for any checker; the harness bounds the rise by the kernel tail there. -/
+theorem soft_monotone_false_at_face :
+    monoAxisOk 4 1 = false ∧
+    ¬ SoftMonotoneAnyFace ([(-2, 1/8), (-1, 1/4), (0, 1/4), (1, 1/4), (2, 1/8)] : List (Int × Rat)) ⟨4, 4, 4⟩ 1 := by
+  refine ⟨by decide, fun h => ?_⟩
+  have h1 := h 0 0 0 1 (by decide) (by decide)
+  revert h1
+  decide +kernel
+
+/-- **what remains OPEN (neither proved nor refuted here) of "non-increasing in between"**, stated precisely: on axes where
+the ball touches a face of the mask box (`monoAxisOk` fails; exact monotonicity is refuted there, `soft_monotone_false_at_face`), the
+quantitative form "a rise along a step away from frequency 0 is at most the kernel tail weight `tail3 ker t²`" that the harness checks
+along the 26 rays. Everything else of the clause is either proved (`soft_gain_mono_step`, `soft_eff_gain_mono_step_full` — Nyquist
+landings included —, `soft_high_gain_mono_step`) or refuted (`soft_monotone_radial_false`, `soft_monotone_false_at_face`).
+No proof claimed. -/
+def SoftMonotoneOpen {K : Type} [Field K] [LinearOrder K] [IsStrictOrderedRing K]
+    (ker : List (Int × K)) (t : Nat) (d : Dims) (r : Int) : Prop :=
+  ∀ j k l j' : Int, monoAxisOk d.nx r = false →
+      ((0 ≤ freq d.nx j ∧ freq d.nx j' = freq d.nx j + 1) ∨ (freq d.nx j ≤ 0 ∧ freq d.nx j' = freq d.nx j - 1)) →
+      lowGainFn (some ker) d r j' k l ≤ lowGainFn (some ker) d r j k l + tail3 ker ((t : Int) * (t : Int))
 
 /-- **known finding C12-K1, witness.** With DIFFERENT edge widths a properly nested band (`hp = 2 < lp = 3`) has a
 negative gain: outer edge `(1/8, 1/4, 1/4, 1/4, 1/8)`, inner edge `(1/16, 7/8, 1/16)`, box 8³, bin `(1,0,0)`:
@@ -875,6 +967,195 @@ theorem highpass_complement_complex (d : Dims) (hd : 0 < d.nx ∧ 0 < d.ny ∧ 0
         reC ker d r x i :=
   highpass_complement (dft_is_transform_complex d hd) ker d r x i
 
+/-! ### the shift theorem and the Hermitian symmetry of the model's own DFT — the remaining hypotheses discharged -/
+section dftsym
+variable {R C : Type} [Field R] [Field C] [Algebra R C]
+
+/-- **shift theorem, 1-D**: over every field with a primitive `n`-th root of unity `ω`, the transform of the sequence
+rolled by any `s ∈ ℤ` (`roll1`: index `(i + s) mod n` on the axis range) is `ω^{-sk}` times the transform (`phase1`) -/
+theorem dft1_shift_theorem (n : Nat) (ω : C) (h : Root n ω) (s : Int) (x : Int → C) (k : Int) :
+    dft1 n (fun m => ω ^ m) (fun i => x (roll1 n s i)) k = phase1 n ω s k * dft1 n (fun m => ω ^ m) x k :=
+  dft1_roll h s x k
+
+/-- **Hermitian symmetry, 1-D**: for a ring homomorphism `conj` with `conj ω = ω⁻¹` (complex conjugation) and a
+`conj`-fixed (real) sequence, `X_{-k} = conj X_k` (`negBox1 n k = (-k) mod n` on the axis range) -/
+theorem dft1_hermitian_symmetry (n : Nat) (ω : C) (h : Root n ω) (conj : C →+* C) (hω : conj ω = ω⁻¹)
+    (x : Int → C) (hx : ∀ u, conj (x u) = x u) (k : Int) :
+    dft1 n (fun m => ω ^ m) x (negBox1 n k) = conj (dft1 n (fun m => ω ^ m) x k) :=
+  dft1_hermitian conj h hω x hx k
+
+/-- **shift theorem, 3-D** (lifted through `alongX/Y/Z`): `fftn(roll(x, -s)) = phase ⊙ fftn(x)` -/
+theorem dft3_shift_theorem (d : Dims) (ωx ωy ωz : C) (hx : Root d.nx ωx) (hy : Root d.ny ωy) (hz : Root d.nz ωz)
+    (s : Idx) (x : Idx → C) (k : Idx) :
+    dft3 d (fun m => ωx ^ m) (fun m => ωy ^ m) (fun m => ωz ^ m) (fun i => x (rollIdx d s i)) k
+      = phase3 d ωx ωy ωz s k * dft3 d (fun m => ωx ^ m) (fun m => ωy ^ m) (fun m => ωz ^ m) x k :=
+  dft3_roll hx hy hz s x k
+
+/-- **Hermitian symmetry, 3-D**: the spectrum of a `conj`-fixed (real) volume at bin `-k` is the conjugate of bin `k` -/
+theorem dft3_hermitian_symmetry (d : Dims) (ωx ωy ωz : C) (hx : Root d.nx ωx) (hy : Root d.ny ωy) (hz : Root d.nz ωz)
+    (conj : C →+* C) (cx : conj ωx = ωx⁻¹) (cy : conj ωy = ωy⁻¹) (cz : conj ωz = ωz⁻¹)
+    (x : Idx → C) (hreal : ∀ i, conj (x i) = x i) (k : Idx) :
+    dft3 d (fun m => ωx ^ m) (fun m => ωy ^ m) (fun m => ωz ^ m) x (negBoxIdx d k)
+      = conj (dft3 d (fun m => ωx ^ m) (fun m => ωy ^ m) (fun m => ωz ^ m) x k) :=
+  dft3_hermitian conj hx hy hz cx cy cz x hreal k
+
+/-- `roll` is a bijection of the index set (inverse: the opposite roll), `-k` an involution -/
+theorem roll_neg_invol (d : Dims) (s i k : Idx) :
+    rollIdx d (-s.1, -s.2.1, -s.2.2) (rollIdx d s i) = i ∧ negBoxIdx d (negBoxIdx d k) = k :=
+  ⟨rollIdx_rollIdx_neg d s i, negBoxIdx_invol d k⟩
+
+/-- **`filt_shift` with its hypothesis discharged**: with the model's DFT pair over any field with the needed roots of
+unity, every multiplier filter commutes with every circular shift — no assumption on the transform left -/
+theorem filt_shift_dft (d : Dims) (ωx ωy ωz : C) (hx : Root d.nx ωx) (hy : Root d.ny ωy) (hz : Root d.nz ωz)
+    (re : C → C) (hre : RealPart R re) (g : Idx → R) (s : Idx) (x : Idx → C) :
+    filt (dft3 d (fun m => ωx ^ m) (fun m => ωy ^ m) (fun m => ωz ^ m))
+        (idft3 d (fun m => ωx ^ m) (fun m => ωy ^ m) (fun m => ωz ^ m) (d.nx : C)⁻¹ (d.ny : C)⁻¹ (d.nz : C)⁻¹) re g
+        (fun i => x (rollIdx d s i))
+      = fun i => filt (dft3 d (fun m => ωx ^ m) (fun m => ωy ^ m) (fun m => ωz ^ m))
+        (idft3 d (fun m => ωx ^ m) (fun m => ωy ^ m) (fun m => ωz ^ m) (d.nx : C)⁻¹ (d.ny : C)⁻¹ (d.nz : C)⁻¹) re g x
+        (rollIdx d s i) :=
+  filt_shift (dft_is_transform d ωx ωy ωz hx hy hz re hre) g (rollIdx d s) (fun k c => phase3 d ωx ωy ωz s k * c)
+    (fun _ a c => mul_smul_comm a _ c) (fun x => funext fun k => dft3_roll hx hy hz s x k) x
+
+end dftsym
+
+/-! ### … over ℂ: `dftC d` / `idftC d` are `dft3 / idft3` with numpy's twiddles `exp(-2πi/n)` (`Lemmas/C12_DftComplexSym`),
+`reC` is `np.real`. Every operator theorem, with NO Transform / shift / Hermitian hypothesis left. -/
+
+theorem dftC_is_dft3 (d : Dims) :
+    dftC d = dft3 d (fun m => omegaC d.nx ^ m) (fun m => omegaC d.ny ^ m) (fun m => omegaC d.nz ^ m) ∧
+    idftC d = idft3 d (fun m => omegaC d.nx ^ m) (fun m => omegaC d.ny ^ m) (fun m => omegaC d.nz ^ m) (d.nx : ℂ)⁻¹ (d.ny : ℂ)⁻¹ (d.nz : ℂ)⁻¹ :=
+  ⟨rfl, rfl⟩
+
+/-- numpy's shift theorem: `fftn(roll(x, -s))[k] = exp(2πi Σ s_a k_a / n_a) · fftn(x)[k]` -/
+theorem dft_shift_theorem_complex (d : Dims) (hd : 0 < d.nx ∧ 0 < d.ny ∧ 0 < d.nz) (s : Idx) (x : Idx → ℂ) (k : Idx) :
+    dftC d (fun i => x (rollIdx d s i)) k = phaseC d s k * dftC d x k := dftC_roll d hd s x k
+
+/-- a real map has a Hermitian spectrum -/
+theorem dft_hermitian_complex (d : Dims) (hd : 0 < d.nx ∧ 0 < d.ny ∧ 0 < d.nz) (x : Idx → ℂ) (hx : ∀ i, (x i).im = 0) (k : Idx) :
+    dftC d x (negBoxIdx d k) = (starRingEnd ℂ) (dftC d x k) := dftC_hermitian d hd x hx k
+
+/-- `np.real(ifftn(Y)) = ifftn(Hermitian part of Y)` -/
+theorem idft_real_part_complex (d : Dims) (hd : 0 < d.nx ∧ 0 < d.ny ∧ 0 < d.nz) (y : Idx → ℂ) (i : Idx) :
+    reC (idftC d y i) = idftC d (fun k => (1 / 2 : ℝ) • (y k + (starRingEnd ℂ) (y (negBoxIdx d k)))) i := idftC_re d hd y i
+
+theorem filt_add_complex (d : Dims) (hd : 0 < d.nx ∧ 0 < d.ny ∧ 0 < d.nz) (g : Idx → ℝ) (x y : Idx → ℂ) :
+    filt (dftC d) (idftC d) reC g (x + y) = filt (dftC d) (idftC d) reC g x + filt (dftC d) (idftC d) reC g y :=
+  filt_add (dftC_transform d hd) g x y
+
+theorem filt_smul_complex (d : Dims) (hd : 0 < d.nx ∧ 0 < d.ny ∧ 0 < d.nz) (g : Idx → ℝ) (a : ℝ) (x : Idx → ℂ) :
+    filt (dftC d) (idftC d) reC g (a • x) = a • filt (dftC d) (idftC d) reC g x :=
+  filt_smul (dftC_transform d hd) g a x
+
+/-- real-valued: the imaginary part of every output voxel is 0 -/
+theorem filt_real_complex (d : Dims) (g : Idx → ℝ) (x : Idx → ℂ) (i : Idx) :
+    (filt (dftC d) (idftC d) reC g x i).im = 0 := by
+  simp [filt, reC]
+
+theorem filt_spectrum_complex (d : Dims) (hd : 0 < d.nx ∧ 0 < d.ny ∧ 0 < d.nz) (g : Idx → ℝ) (x : Idx → ℂ) (k : Idx) :
+    dftC d (idftC d (fun k => g k • dftC d x k)) k = g k • dftC d x k :=
+  filt_spectrum (dftC_transform d hd) g x k
+
+/-- **commutes with circular shifts** — every gain, every box, every shift; nothing assumed -/
+theorem filt_shift_complex (d : Dims) (hd : 0 < d.nx ∧ 0 < d.ny ∧ 0 < d.nz) (g : Idx → ℝ) (s : Idx) (x : Idx → ℂ) :
+    filt (dftC d) (idftC d) reC g (fun i => x (rollIdx d s i)) = fun i => filt (dftC d) (idftC d) reC g x (rollIdx d s i) :=
+  filt_shift_dft d _ _ _ (omegaC_root _ hd.1) (omegaC_root _ hd.2.1) (omegaC_root _ hd.2.2) reC reC_realPart g s x
+
+/-- **even gain, real map: `np.real` drops nothing**, the output spectrum is gain × input spectrum -/
+theorem filt_even_gain_complex (d : Dims) (hd : 0 < d.nx ∧ 0 < d.ny ∧ 0 < d.nz) (g : Idx → ℝ)
+    (hg : ∀ k, g (negBoxIdx d k) = g k) (x : Idx → ℂ) (hx : ∀ i, (x i).im = 0) :
+    filt (dftC d) (idftC d) reC g x = idftC d (fun k => g k • dftC d x k)
+    ∧ ∀ k, dftC d (filt (dftC d) (idftC d) reC g x) k = g k • dftC d x k :=
+  filt_even_gain (dftC_transform d hd) (starRingEnd ℂ) (negBoxIdx d) conj_real_smul
+    (fun y hy i => idftC_real_of_hermitian d hd y hy i) g hg x (dftC_hermitian d hd x hx)
+
+/-- **any real gain, real map: the filter acts with the even part of the gain** (what the harness measures) -/
+theorem filt_effective_gain_complex (d : Dims) (hd : 0 < d.nx ∧ 0 < d.ny ∧ 0 < d.nz) (g : Idx → ℝ)
+    (x : Idx → ℂ) (hx : ∀ i, (x i).im = 0) :
+    filt (dftC d) (idftC d) reC g x = idftC d (fun k => ((g k + g (negBoxIdx d k)) / 2) • dftC d x k)
+    ∧ ∀ k, dftC d (filt (dftC d) (idftC d) reC g x) k = ((g k + g (negBoxIdx d k)) / 2) • dftC d x k :=
+  filt_effective_gain (dftC_transform d hd) two_ne_zero (starRingEnd ℂ) (negBoxIdx d) conj_real_smul Complex.conj_conj
+    (fun y i => idftC_re d hd y i) g x (dftC_hermitian d hd x hx)
+
+theorem filt_complement_complex (d : Dims) (hd : 0 < d.nx ∧ 0 < d.ny ∧ 0 < d.nz) (g : Idx → ℝ) (x : Idx → ℂ) (i : Idx) :
+    filt (dftC d) (idftC d) reC (fun k => 1 - g k) x i = reC (x i) - filt (dftC d) (idftC d) reC g x i :=
+  filt_complement (dftC_transform d hd) g x i
+
+theorem filt_difference_complex (d : Dims) (hd : 0 < d.nx ∧ 0 < d.ny ∧ 0 < d.nz) (g1 g2 : Idx → ℝ) (x : Idx → ℂ) (i : Idx) :
+    filt (dftC d) (idftC d) reC (fun k => g1 k - g2 k) x i
+      = filt (dftC d) (idftC d) reC g1 x i - filt (dftC d) (idftC d) reC g2 x i :=
+  filt_difference (dftC_transform d hd) g1 g2 x i
+
+theorem bandpass_difference_complex (d : Dims) (hd : 0 < d.nx ∧ 0 < d.ny ∧ 0 < d.nz) (kl kh : Option (List (Int × ℝ))) (lp hp : Int)
+    (x : Idx → ℂ) (i : Idx) :
+    bandpass (dftC d) (idftC d) reC kl kh d lp hp x i
+      = lowpass (dftC d) (idftC d) reC kl d lp x i - lowpass (dftC d) (idftC d) reC kh d hp x i :=
+  bandpass_difference (dftC_transform d hd) kl kh d lp hp x i
+
+/-! #### the three cryoCAT filters over ℂ -/
+
+/-- **low-, high- and band-pass commute with `np.roll`** (every kernel, cutoff, box and shift) -/
+theorem filters_shift_complex (d : Dims) (hd : 0 < d.nx ∧ 0 < d.ny ∧ 0 < d.nz) (kl kh : Option (List (Int × ℝ))) (lp hp : Int)
+    (s : Idx) (x : Idx → ℂ) :
+    lowpass (dftC d) (idftC d) reC kl d lp (fun i => x (rollIdx d s i))
+        = (fun i => lowpass (dftC d) (idftC d) reC kl d lp x (rollIdx d s i)) ∧
+    highpass (dftC d) (idftC d) reC kl d lp (fun i => x (rollIdx d s i))
+        = (fun i => highpass (dftC d) (idftC d) reC kl d lp x (rollIdx d s i)) ∧
+    bandpass (dftC d) (idftC d) reC kl kh d lp hp (fun i => x (rollIdx d s i))
+        = (fun i => bandpass (dftC d) (idftC d) reC kl kh d lp hp x (rollIdx d s i)) :=
+  ⟨filt_shift_complex d hd _ s x, filt_shift_complex d hd _ s x, filt_shift_complex d hd _ s x⟩
+
+/-- opposite bins have the same integer frequency radius, also with `-k` taken on the box only -/
+theorem freqRadius2_negBox (d : Dims) (hd : 0 < d.nx ∧ 0 < d.ny ∧ 0 < d.nz) (k : Idx) :
+    freqRadius2 d (negBoxIdx d k).1 (negBoxIdx d k).2.1 (negBoxIdx d k).2.2 = freqRadius2 d k.1 k.2.1 k.2.2 := by
+  have h1 : ∀ (n : Nat), 0 < n → ∀ j : Int, freq n (negBox1 n j) * freq n (negBox1 n j) = freq n j * freq n j := by
+    intro n hn j
+    unfold negBox1
+    split_ifs
+    · exact freq_neg_sq n hn j
+    · rfl
+  obtain ⟨a, b, c⟩ := k
+  simp only [freqRadius2, negBoxIdx]
+  rw [h1 _ hd.1, h1 _ hd.2.1, h1 _ hd.2.2]
+
+/-- **the hard low-pass of a real map, end to end**: Fourier component `k` of the output is the input's component
+times exactly 1 (integer frequency radius² ≤ cutoff²) or 0 — `np.real` included, nothing assumed about the transform -/
+theorem hard_lowpass_spectrum_complex (d : Dims) (hd : 0 < d.nx ∧ 0 < d.ny ∧ 0 < d.nz) (r : Int) (hr : 0 ≤ r)
+    (x : Idx → ℂ) (hx : ∀ i, (x i).im = 0) (k : Idx) :
+    dftC d (lowpass (dftC d) (idftC d) reC (none : Option (List (Int × ℝ))) d r x) k
+      = (if freqRadius2 d k.1 k.2.1 k.2.2 ≤ r * r then (1 : ℝ) else 0) • dftC d x k := by
+  have hg : ∀ k : Idx, atIdx (lowGainFn (none : Option (List (Int × ℝ))) d r) (negBoxIdx d k)
+      = atIdx (lowGainFn (none : Option (List (Int × ℝ))) d r) k := by
+    intro k
+    simp only [atIdx]
+    rw [hard_gain d r hr, hard_gain d r hr, freqRadius2_negBox d hd]
+  have := (filt_even_gain_complex d hd _ hg x hx).2 k
+  unfold lowpass
+  rw [this]
+  simp only [atIdx]
+  rw [hard_gain d r hr]
+
+/-- **every filter of a real map, end to end**: on the box, Fourier component `k` of the output is the input's
+component times the model's effective gain `effGain` (the array the driver materialises and the harness compares
+with the gain it measures on the real code) -/
+theorem filter_effective_gain_complex (d : Dims) (hd : 0 < d.nx ∧ 0 < d.ny ∧ 0 < d.nz) (g : Vol ℝ)
+    (x : Idx → ℂ) (hx : ∀ i, (x i).im = 0) (k : Idx) (hk : InBoxI d k) :
+    dftC d (filt (dftC d) (idftC d) reC (atIdx g) x) k = atIdx (effGain d g) k • dftC d x k := by
+  rw [(filt_effective_gain_complex d hd (atIdx g) x hx).2 k]
+  obtain ⟨a, b, c⟩ := k
+  obtain ⟨h1, h2, h3⟩ := hk
+  simp only [atIdx, effGain, negBoxIdx, negBox1]
+  rw [if_pos h1, if_pos h2, if_pos h3]
+
+/-- … in particular for the three cryoCAT filters with their own gains -/
+theorem filters_effective_gain_complex (d : Dims) (hd : 0 < d.nx ∧ 0 < d.ny ∧ 0 < d.nz) (kl kh : Option (List (Int × ℝ))) (lp hp : Int)
+    (x : Idx → ℂ) (hx : ∀ i, (x i).im = 0) (k : Idx) (hk : InBoxI d k) :
+    dftC d (lowpass (dftC d) (idftC d) reC kl d lp x) k = atIdx (effGain d (lowGainFn kl d lp)) k • dftC d x k ∧
+    dftC d (highpass (dftC d) (idftC d) reC kl d lp x) k = atIdx (effGain d (highGainFn kl d lp)) k • dftC d x k ∧
+    dftC d (bandpass (dftC d) (idftC d) reC kl kh d lp hp x) k = atIdx (effGain d (bandGainFn kl kh d lp hp)) k • dftC d x k :=
+  ⟨filter_effective_gain_complex d hd _ x hx k hk, filter_effective_gain_complex d hd _ x hx k hk,
+    filter_effective_gain_complex d hd _ x hx k hk⟩
+
 /-! ### the executed filter arrays are these operators -/
 section filtergrid
 variable {α C : Type} [Add α] [Mul α] [Sub α] [OfNat α 0] [OfNat α 1] [SMul α C] [Add C] [Mul C] [OfNat C 0]
@@ -898,7 +1179,27 @@ theorem bandpass_grid (d : Dims) (twx twy twz : Nat → C) (ix iy iz : C) (re : 
     atIdx (filtGrid d twx twy twz ix iy iz re (atIdx (gainGrid d (bandMaskGrid kl kh d lp hp)).get) x).get i
       = bandpass (dft3 d twx twy twz) (idft3 d twx twy twz ix iy iz) re kl kh d lp hp (atIdx x.get) i :=
   filtGrid_mask d twx twy twz ix iy iz re _ _ (fun a b c h => bandMaskGrid_get kl kh d lp hp a b c h) x i hi
+
+omit [Add α] [Mul α] [Sub α] [OfNat α 0] [OfNat α 1] in
+/-- the driver's `filter` op with the key `roll`: the pipeline run on the rolled array `rollGrid d s x` is the filter
+operator applied to the re-indexed input `x ∘ rollIdx d s` (any number types) -/
+theorem filter_grid_roll (d : Dims) (twx twy twz : Nat → C) (ix iy iz : C) (re : C → C) (gain : Idx → α) (s : Idx)
+    (x : Grid C) (i : Idx) (hi : InBoxI d i) :
+    atIdx (filtGrid d twx twy twz ix iy iz re gain (rollGrid d s x)).get i
+      = filt (dft3 d twx twy twz) (idft3 d twx twy twz ix iy iz) re gain (fun i => atIdx x.get (rollIdx d s i)) i :=
+  filtGrid_roll d twx twy twz ix iy iz re gain s x i hi
 end filtergrid
+
+/-- … and in exact complex arithmetic that is the ROLLED output of the pipeline on the unrolled array: what the driver
+returns as `out_roll` is `out` re-indexed with `rollIdx` (the harness compares it with the real code's output on
+`np.roll(x, -s)`, tying `rollIdx` — the shift the theorems speak about — to `np.roll`) -/
+theorem filter_grid_roll_complex (d : Dims) (hd : 0 < d.nx ∧ 0 < d.ny ∧ 0 < d.nz) (gain : Idx → ℝ) (s : Idx)
+    (x : Grid ℂ) (i : Idx) (hi : InBoxI d i) :
+    atIdx (filtGrid d (fun m => omegaC d.nx ^ m) (fun m => omegaC d.ny ^ m) (fun m => omegaC d.nz ^ m)
+        (d.nx : ℂ)⁻¹ (d.ny : ℂ)⁻¹ (d.nz : ℂ)⁻¹ reC gain (rollGrid d s x)).get i
+      = filt (dftC d) (idftC d) reC gain (atIdx x.get) (rollIdx d s i) := by
+  rw [filtGrid_roll d _ _ _ _ _ _ reC gain s x i hi]
+  exact congrFun (filt_shift_complex d hd gain s (atIdx x.get)) i
 
 /-! ### cutoff from a target resolution -/
 
@@ -964,6 +1265,9 @@ example : centre 16 + 5 + 1 < (16 : Int) ∧ (5 : Int) < centre 16 ∧ freq 16 3
 example : monoAxisOk 16 5 = true ∧ monoAxisOk 16 7 = false ∧ monoAxisOk 8 12 = false := by decide
 example : EffStep 16 5 2 3 ∧ AwayStep 16 5 14 13 ∧ EffStep 16 5 4 4 := by
   refine ⟨Or.inr ⟨by decide, by decide, Or.inl ⟨by decide, by decide⟩⟩, Or.inr ⟨by decide, Or.inr ⟨by decide, by decide⟩⟩, Or.inl rfl⟩
+-- a Nyquist landing that is an `AwayStep` but not an `EffStep`: axis 16, cutoff 5, bins 9 (frequency −7) → 8 (frequency −8)
+example : AwayStep 16 5 9 8 ∧ ¬ EffStep 16 5 9 8 ∧ freq 16 8 = -centre 16 ∧ freq 16 9 = -centre 16 + 1 := by
+  refine ⟨?_, ?_, by decide, by decide⟩ <;> simp [AwayStep, EffStep] <;> decide
 example : ((1 : Int) = 1 ∨ (1 : Int) = -1) ∧ monoAxisOk 16 5 = true ∧ (6 : Int) + 1 < (16 : Int) - centre 16 := by decide
 example : Root 2 (-1 : Rat) := ⟨IsPrimitiveRoot.neg_one 0 (by decide), by decide, by norm_num⟩
 /-- the 2-point DFT of (x₀,x₁) is (x₀+x₁, x₀−x₁), outside 0…1 nothing moves -/
@@ -971,6 +1275,20 @@ example : dft1 2 (fun m => (-1 : Rat) ^ m) (fun u => if u = 0 then 3 else if u =
     ∧ dft1 2 (fun m => (-1 : Rat) ^ m) (fun u => if u = 0 then 3 else if u = 1 then 5 else 7) 0 = 8
     ∧ dft1 2 (fun m => (-1 : Rat) ^ m) (fun u => if u = 0 then 3 else if u = 1 then 5 else 7) 2 = 7 := by decide +kernel
 /-- `soft_gain_one` hypotheses: box 16³, cutoff 6, t = 1, s = 2 (3·1 ≤ 4), bin (2,1,0): radius² = 5 ≤ 3² -/
+-- the new index maps, the shift theorem and the Hermitian symmetry on concrete inputs (n = 2, ω = −1, conj = id on ℚ)
+example : roll1 5 2 4 = 1 ∧ roll1 5 (-7) 0 = 3 ∧ roll1 5 2 9 = 9 ∧ negBox1 5 2 = 3 ∧ negBox1 6 3 = 3 ∧ negBox1 5 0 = 0 ∧ negBox1 5 (-2) = -2 := by decide
+example : rollIdx ⟨4, 5, 6⟩ (1, -1, 7) (3, 0, 2) = (0, 4, 3) ∧ negBoxIdx ⟨4, 5, 6⟩ (1, 0, 2) = (3, 0, 4) := by decide
+example : (RingHom.id Rat) (-1 : Rat) = (-1 : Rat)⁻¹ ∧ ∀ u : Int, (RingHom.id Rat) ((fun u => if u = 0 then (3 : Rat) else 5) u) = (fun u => if u = 0 then (3 : Rat) else 5) u :=
+  ⟨by norm_num, fun _ => rfl⟩
+example : dft1 2 (fun m => (-1 : Rat) ^ m) (fun i => (fun u : Int => if u = 0 then (3 : Rat) else if u = 1 then 5 else 7) (roll1 2 1 i)) 1 = 2
+    ∧ phase1 2 (-1 : Rat) 1 1 = -1 := by
+  constructor
+  · simp [dft1, sumN, roll1]; norm_num
+  · simp [phase1]
+example : (∀ i : Idx, ((fun _ => (3 : ℂ)) i).im = 0) ∧ InBoxI ⟨4, 5, 6⟩ (3, 0, 2) := by
+  refine ⟨fun _ => by simp, ?_⟩
+  simp [InBoxI, InBox]
+example : ∀ k : Idx, (fun _ : Idx => (1 / 2 : ℝ)) (negBoxIdx ⟨4, 5, 6⟩ k) = (fun _ : Idx => (1 / 2 : ℝ)) k := fun _ => rfl
 example : freqRadius2 ⟨16, 16, 16⟩ 2 1 0 ≤ 3 * 3 ∧ 3 * ((1 : Int) * 1) ≤ 2 * 2 ∧ (3 : Int) + 2 ≤ 6 := by decide
 /-- `soft_gain_zero` hypotheses: same box, cutoff 3, bin (−7,0,0) = DFT index 9: radius² = 49 ≥ 6², 3 + 2 < 6 -/
 example : (6 : Int) * 6 ≤ freqRadius2 ⟨16, 16, 16⟩ 9 0 0 ∧ (3 : Int) + 2 < 6 := by decide
